@@ -97,6 +97,13 @@ claimed.update({
    technique="explicit enumeration of generated inputs x a finite re-encoding group with invariant and snapshot-equality oracles",
    design="5/C05"),
 })
+claimed.update({
+ "C06": dict(
+   text="Bounded exhaustive exploration of format detection on the real Sniffer and reader: every document over <=2 nodes (edge lists, root subsets, plain and declaration-mentioning attribute texts) x the 4 readable output formats x indents x 8 JSON layouts (declaration first / last / behind a 64 KiB member, compact, indented, reversed, escaped values and keys, leading whitespace): detected format = written format, ParseStream = ParseStreamWithOptions(Format), the parse after detection sees the whole document; the full cube of declaration-member values (7 x 10 x 9, two member orders), every sequence of <=3 tag-value header-line variants (LF/CRLF) and every token string of <=4 (thorough 5) tokens: a format is reported only if its Type/Version/Encoding accessors agree with the declaration read independently from the input, otherwise an error, never a panic; an instrumented ReadSeeker (chunks of 1, 7, 4096 bytes; every pre-position <= 8) must be back at offset 0.",
+   note="Trusted: independent declaration reader (encoding/json into a map); tag-value agreement is the weak form stated in evidence.assumptions.",
+   technique="explicit enumeration of writer outputs x layouts x seeker variants and of declaration cubes / header lines / token strings",
+   design="5/C06"),
+})
 pending = {}
 all_ids = ["C%02d" % i for i in range(1, 21)]
 checks = []
